@@ -818,7 +818,65 @@ def build_T6q(tree):
     return text, hashlib.sha256(repr(tags).encode()).hexdigest()
 
 
+DTYPE_CODES = {'float32': 232, 'float64': 264, 'int8': 108, 'int16': 116, 'int32': 132, 'int64': 164,
+               'uint8': 8, 'uint16': 16, 'uint32': 32, 'uint64': 64}
+
+
+def build_T6r(tree):
+    """`_CombinedPixelTransform.__init__`: type and range of the stored values deduced from the image description
+    (ParametricMapStorage with more than 16 bits allocated: float; PixelRepresentation 1: signed, range from BitsStored in
+    two's complement; else unsigned).  dtype as a code: 100 + bits signed, bits unsigned, 200 + bits float, -1 not set."""
+    fn = _init(tree)
+    body = strip_doc(fn.body)
+    start = None
+    for i, st in enumerate(body):
+        if ast.unparse(st) == 'input_range = None' and i + 1 < len(body) and isinstance(body[i + 1], ast.If) \
+                and 'ParametricMapStorage' in ast.unparse(body[i + 1].test):
+            start = i
+    if start is None:
+        raise Unsupported('input type block of _CombinedPixelTransform.__init__ not found')
+    block = body[start:start + 2]
+
+    class R(ast.NodeTransformer):
+        def visit_Compare(self, node):
+            if ast.unparse(node) == 'image.SOPClassUID == ParametricMapStorage':
+                return ast.copy_location(ast.Name(id='is_pmap', ctx=ast.Load()), node)
+            return self.generic_visit(node)
+
+        def visit_Assign(self, node):
+            t = ast.unparse(node.targets[0])
+            v = ast.unparse(node.value)
+            if t == 'self.input_dtype':
+                if not (v.startswith('np.dtype(np.') and v.endswith(')') and v[12:-1] in DTYPE_CODES):
+                    raise Unsupported('input_dtype set to an unknown type: ' + v)
+                return ast.parse(f'input_dtype = {DTYPE_CODES[v[12:-1]]}').body[0]
+            if t == 'input_range':
+                if v == 'None':
+                    return ast.parse('has_range = False').body
+                if not (isinstance(node.value, ast.Tuple) and len(node.value.elts) == 2):
+                    raise Unsupported('input_range is no longer a pair')
+                a, b = (ast.unparse(e) for e in node.value.elts)
+                return ast.parse(f'range_lo = {a}\nrange_hi = {b}\nhas_range = True').body
+            if t == 'half_range':
+                return node
+            raise Unsupported('input type block: unexpected assignment ' + ast.unparse(node)[:80])
+    stmts = ast.parse('input_dtype = -1\nrange_lo = 0\nrange_hi = 0').body
+    for st in block:
+        r = R().visit(copy.deepcopy(st))
+        stmts += r if isinstance(r, list) else [r]
+    stmts.append(_ret('(input_dtype, has_range, range_lo, range_hi)'))
+    for x in stmts:
+        ast.fix_missing_locations(x)
+    text = translate_block(stmts, 'inputType', [('is_pmap', 'bool')],
+                           {'image.BitsAllocated': ('int', 'bitsAllocated'), 'image.PixelRepresentation': ('int', 'pixelRepresentation'),
+                            'image.BitsStored': ('int', 'bitsStored')},
+                           doc='`_CombinedPixelTransform.__init__`: (dtype code of the stored values, is a value range known, lowest, highest '
+                               'stored value) from the image description; dtype code = 100 + bits signed / bits unsigned / 200 + bits float / -1')
+    return text, span_sha(block)
+
+
 TARGETS = {
+    'T6r': {'file': 'image.py', 'build': build_T6r},
     'T6p': {'file': 'image.py', 'build': build_T6p},
     'T6q': {'file': 'image.py', 'build': build_T6q},
     'T6n': {'file': 'content.py', 'build': build_T6n},
